@@ -112,6 +112,15 @@ def build_jobs(ctx, sc, exe, thorough, want_class=("ws",)):
                          "align_var_def_span": rng.choice([0, 2]), "align_nl_cont": rng.choice(["false", "true"]) if False else rng.choice([0, 1]),
                          "nl_max": rng.choice([0, 2])})
             jobs.append(pipeline.Job("gen%d.%d" % (i, k), sc.cfg(None, opts), p, lang, {"kind": "gen", "text": txt, "opts": opts}))
+    # every spacing option singly at `remove` (only the fusion guard keeps the tokens apart then), rotating over the generated programs:
+    # a run with one option isolates that option's rule, so a known fusion elsewhere cannot mask it
+    gen_jobs = [j for j in jobs if j.name.endswith(".0")]
+    for n, o in enumerate(sp):
+        for r in range(3 if thorough else 1):
+            j0 = gen_jobs[(n * 7 + r * 13) % len(gen_jobs)]
+            opts = {o: "remove"}
+            jobs.append(pipeline.Job("single-remove.%s.%d" % (o, r), sc.cfg(None, opts), j0.inp, j0.lang,
+                                     {"kind": "gen", "text": j0.meta["text"], "opts": opts}))
     pairs = [p for p in unc.test_pairs() if os.path.getsize(p[2]) < 40000]
     rng.shuffle(pairs)
     n = 0
